@@ -202,7 +202,7 @@ class Histories(BFSFamily):
         return 4 if tier == 'quick' else 6
 
     def events(self, history):
-        return [(m, k) for m in range(len(METHODS)) for k in range(len(REPLY_KINDS))]
+        return [(m, k) for m in range(len(METHODS)) for k in range(len(REPLY_KINDS))] + [(-1, 0)]
 
     def apply(self, history):
         from bitcoin.rpc import JSONRPCError
@@ -211,7 +211,13 @@ class Histories(BFSFamily):
         self._table = table
         last = None
         prev_id = 0
+        kind_class = 'closed'
         for n, (mi, ki) in enumerate(history):
+            if mi == -1:
+                # close() on the proxy (the connection object is re-used by the next call, as http.client does)
+                p.close()
+                last, kind_class = 'closed', 'closed'
+                continue
             method, kind = METHODS[mi], REPLY_KINDS[ki]
             fn, result_json = table[method]
             c.replies.append(make_reply(kind, result_json))
